@@ -158,16 +158,18 @@ def run_history(ctx, h):
         kw["class_"] = shared_value
     if h.get("style") is not None:
         kw["style"] = h["style"]
-    tag = ht.div("c", id="keep", **kw)
+    bare = bool(h.get("bare")) and not kw
+    # (a bare element has no attribute at all when the copies below are made)
+    tag = ht.div("c") if bare else ht.div("c", id="keep", **kw)
     # other holders of the same value object: another element built with it, and a copy of the element made before the helpers run
     other = ht.span(**kw)
-    twin = _copy.copy(tag)
+    twin = _copy.copy(tag) if not (bare and h.get("bare") == "tagify") else tag.tagify()
     held = (str(other.attrs.get("class")), str(other.attrs.get("style")), str(twin.attrs.get("class")), str(twin.attrs.get("style")))
     model = {"tokens": None if h["init"] is None else h["init"].split()}
     for op in h["ops"]:
         if not step(ctx, tag, model, op, wit):
             return False
-        if tag.attrs.get("id") != "keep":
+        if not bare and tag.attrs.get("id") != "keep":
             ctx.violation("helper-disturbs-other-attrs", "id attribute changed", wit)
             return False
         ctx.count("oracle.other_holders")
@@ -297,6 +299,8 @@ def run(ctx):
                 s = rng.choice(["color:red;", "a:b;", "width: 1px ;", "x", "color:red", "", ";", "a:b; ", "c:d;\n"])
                 ops.append({"op": "style", "s": s, "prepend": rng.random() < 0.5, "html": rng.random() < 0.2})
         h = {"init": rng.choice(INITIAL), "init_html": rng.random() < 0.2, "style": rng.choice([None, None, "k:v;", "no-semicolon", " k:v; ", "k:v;\n", "\tk:v;"]), "ops": ops}
+        if rng.random() < 0.12:
+            h.update(init=None, style=None, bare=rng.choice([True, "tagify"]))
         ctx.guard(run_history, ctx, h, witness={"history": h})
         ctx.case(h, nontrivial=nontrivial(h))
         for op in ops:
